@@ -133,7 +133,7 @@ def factories(ctx):
                         continue
                     st = scan.args[0]
                     okst = isinstance(st, Rec) and st.kind == "stacked_layers"
-                    ctx.oblige(f"C03/{tag}/struct/layers_are_vmapped_over_split_keys#{n_}", bool(okst), [], props, kind="struct", fn=fnq)
+                    ctx.oblige(f"C03/{tag}/struct/layers_are_vmapped_over_split_keys#{n_}", bool(okst), [], props, kind="applicability", fn=fnq)
                     if not okst:
                         continue
                     i = st.kw["generic_index"]
@@ -145,7 +145,7 @@ def factories(ctx):
                     else:
                         core_, perm = lay, None
                     okk = isinstance(core_, Rec) and core_.kind == layer_kind
-                    ctx.oblige(f"C03/{tag}/struct/layer_kind#{n_}", bool(okk), [], props, kind="struct", fn=fnq)
+                    ctx.oblige(f"C03/{tag}/struct/layer_kind#{n_}", bool(okk), [], props, kind="applicability", fn=fnq)
                     if not okk:
                         continue
                     # which permutation follows a layer is an architecture choice; it must be a permutation of ALL dim coordinates
@@ -165,7 +165,7 @@ def factories(ctx):
                         if okp:
                             ctx.oblige(f"C03/{tag}/post/permutation_of_all_coordinates#{n_}", lift(count) == dimv, p.cond + [dimv >= 1], props, fn=f"{MOD}._add_default_permute", replay=rp)
                     else:
-                        ctx.oblige(f"C03/{tag}/struct/known_permutation_kind#{n_}", False, [], props, kind="struct", fn=f"{MOD}._add_default_permute")
+                        ctx.oblige(f"C03/{tag}/struct/known_permutation_kind#{n_}", False, [], props, kind="applicability", fn=f"{MOD}._add_default_permute")
                     # layer arguments
                     kw = dict(core_.kw)
                     lkey = kw.get("key", core_.args[0] if core_.args else None)
